@@ -28,15 +28,19 @@ static void tokq (mpq_t q) { setq (q, tok ()); }
 static void out_d (double d) { uint64_t u; memcpy (&u, &d, 8); printf (" %016lx", (unsigned long)u); }
 static void out_rdpe (const rdpe_t e) { out_d (rdpe_Mnt (e)); printf (" %ld", rdpe_Esp (e)); }
 static void out_cdpe (const cdpe_t c) { out_rdpe (cdpe_Re (c)); out_rdpe (cdpe_Im (c)); }
-/* all hexadecimal digits of the limbs in use: the export is exact (0 = `as many as the precision', which may round) */
-#define NDIG(x) (16 * (size_t)((x)->_mp_size < 0 ? -(x)->_mp_size : (x)->_mp_size) + 2)
-static void out_mpf (mpf_t x)
+/* exact export of an mpf: the limbs in use, most significant first, as hexadecimal digits; value = 0.DIGITS * 16^exp16
+ * (mpf_get_str caps the number of digits by the precision and ROUNDS, an mpf may hold one limb more than that) */
+static char *mpf_str (mpf_t x)
 {
-  mp_exp_t e; char *s = mpf_get_str (NULL, &e, 16, NDIG (x), x);
-  if (s[0] == 0) printf (" 0:0"); else printf (" %s:%ld", s, (long)e);
-  printf ("@%lu", (unsigned long)mpf_get_prec (x));
-  free (s);
+  long size = x->_mp_size < 0 ? -(long)x->_mp_size : (long)x->_mp_size, i;
+  char *o = (char *)malloc (16 * (size_t)size + 80), *q = o;
+  if (size == 0) { sprintf (o, "0:0@%lu", (unsigned long)mpf_get_prec (x)); return o; }
+  if (x->_mp_size < 0) *q++ = '-';
+  for (i = size - 1; i >= 0; i--) { sprintf (q, "%016lx", (unsigned long)x->_mp_d[i]); q += 16; }
+  sprintf (q, ":%ld@%lu", 16L * (long)x->_mp_exp, (unsigned long)mpf_get_prec (x));
+  return o;
 }
+static void out_mpf (mpf_t x) { char *s = mpf_str (x); printf (" %s", s); free (s); }
 
 /* ---- recording wrappers ---- */
 #define MAXREC 64
@@ -58,12 +62,6 @@ void __wrap_cdpe_mod (rdpe_t e, const cdpe_t c)
   cdpe_t keep; cdpe_set (keep, c);
   __real_cdpe_mod (e, c);
   if (recording && ndm < MAXREC) { cdpe_set (dm_arg[ndm], keep); rdpe_set (dm_res[ndm], e); ndm++; }
-}
-static char *mpf_str (mpf_t x)
-{
-  mp_exp_t e; char *s = mpf_get_str (NULL, &e, 16, NDIG (x), x); char *o = (char *)malloc (strlen (s) + 64);
-  if (s[0] == 0) sprintf (o, "0:0@%lu", (unsigned long)mpf_get_prec (x)); else sprintf (o, "%s:%ld@%lu", s, (long)e, (unsigned long)mpf_get_prec (x));
-  free (s); return o;
 }
 void __real_mpc_get_cdpe (cdpe_t c, mpc_t mc);
 void __wrap_mpc_get_cdpe (cdpe_t c, mpc_t mc)
